@@ -24,7 +24,7 @@ from .model import norm
 _BUILTIN_TYPES = {t.__name__: t for t in (bool, int, float, complex, str, bytes, bytearray, tuple, list, dict, set, frozenset, object, type)}
 
 
-NATIVE_MODULE_CALLS = {("inspect", "getattr_static"), ("inspect", "isfunction"), ("inspect", "isclass"), ("inspect", "ismethod")}
+NATIVE_MODULE_CALLS = {("inspect", "getattr_static"), ("inspect", "isfunction"), ("inspect", "isclass"), ("inspect", "ismethod"), ("ast", "parse"), ("ast", "walk"), ("ast", "dump")}
 NATIVE_MODULE_CONSTRUCTORS = {("ast", "keyword"), ("ast", "Call"), ("ast", "Name"), ("ast", "Constant"), ("ast", "FormattedValue"), ("ast", "JoinedStr")}
 
 
@@ -811,6 +811,11 @@ class Interp:
                         raise Unsupported(e, "(defaultdict initialiser)")
                     dd.update(init)
                 return dd
+            if nm == "repr" and len(e.args) == 1 and not e.keywords and nm not in self.env and nm not in self.funcs:
+                v0 = self.ev(e.args[0])
+                if isinstance(v0, (str, bytes, int, float, bool, type(None))):
+                    return repr(v0)  # repr() of a primitive of the model is its real repr
+                return Opaque("repr")
             if nm == "map" and len(e.args) == 2 and isinstance(e.args[0], ast.Name) and nm not in self.env:
                 xs = self.ev(e.args[1])
                 if isinstance(xs, Opaque):
@@ -976,7 +981,11 @@ class Interp:
                     raise Unsupported(e, "(match object of a compiled pattern)")
                 return r
             if isinstance(recv, __import__("types").ModuleType) and (recv.__name__, meth) in NATIVE_MODULE_CALLS and not any(isinstance(a, (Obj, Opaque, Sym)) for a in args):
-                return getattr(recv, meth)(*args)  # a pure inspection function of the standard library on real objects
+                try:
+                    r = getattr(recv, meth)(*args)  # a pure inspection function of the standard library on real objects
+                except SyntaxError:
+                    raise PyRaise("SyntaxError", None)
+                return list(r) if meth == "walk" else r
             if isinstance(recv, __import__("types").ModuleType) and (recv.__name__, meth) in NATIVE_MODULE_CONSTRUCTORS:
                 kwargs = {k.arg: self.ev(k.value) for k in e.keywords if k.arg}
                 return getattr(recv, meth)(*args, **kwargs)  # building a syntax-tree node
